@@ -12,10 +12,6 @@
 #include "verif_common.h"
 #include "myth_tls_func.h"
 
-typedef struct { int type; myth_tls_entry_t entries[myth_tls_tree_node_n_entries_in_leaf]; } verif_leaf_t;
-
-myth_tls_tree_node_t P0[1], P1[4], P2[16];
-verif_leaf_t P3[64];
 myth_tls_tree_t T;
 char VAL[4];
 int g_malloc_calls; size_t g_malloc_sz_bad;
@@ -31,48 +27,50 @@ void * real_malloc(size_t sz) {
 }
 void real_free(void * p) { }
 
+/* Tree states are built BY THE REAL CODE: a descriptor whose embedded pool holds arbitrary bytes (a recycled
+   descriptor is not zeroed) is initialised with the real myth_tls_tree_init, then up to HIST earlier stores with
+   arbitrary keys and values are made with the real myth_tls_tree_set.  (Canonical hand-built trees were abandoned:
+   CBMC 6.11 mis-models the node union and the entries[1] flexible array in typed look-alike objects, DESIGN §7.)
+   This is a BOUNDED history (HIST earlier stores); every key/value of the history is symbolic. */
+#ifndef HIST
+#define HIST 2
+#endif
+int g_hk[HIST]; void * g_hv[HIST];
 static void build_tree(void) {
   int i;
-  T.root = nondet_bool() ? &P0[0] : 0;
-  P0[0].type = myth_tls_tree_node_type_internal;
-  for (i = 0; i < 4; i++)  { P1[i].type = myth_tls_tree_node_type_internal; P0[0].children[i] = nondet_bool() ? &P1[i] : 0; }
-  for (i = 0; i < 16; i++) { P2[i].type = myth_tls_tree_node_type_internal; P1[i / 4].children[i % 4] = nondet_bool() ? &P2[i] : 0; }
-  for (i = 0; i < 64; i++) { P3[i].type = myth_tls_tree_node_type_leaf;     P2[i / 4].children[i % 4] = nondet_bool() ? (myth_tls_tree_node_t *)&P3[i] : 0; }
-  /* bump pool: arbitrary contents, bump pointer anywhere in [buf, buf+sz] */
-  unsigned off = nondet_unsigned();
-  __CPROVER_assume(off <= myth_tls_tree_pre_alloc_sz);
-  T.pre_alloc_p = T.pre_alloc_buf + off;
   for (i = 0; i < myth_tls_tree_pre_alloc_sz; i++) T.pre_alloc_buf[i] = nondet_char();
+  T.root = (myth_tls_tree_node_t *)&VAL[3];       /* stale root of the previous owner of the descriptor */
+  T.pre_alloc_p = T.pre_alloc_buf + 7;
+  myth_tls_tree_init(&T);
+  for (i = 0; i < HIST; i++) {
+    g_hk[i] = nondet_int(); g_hv[i] = nondet_bool() ? (void *)&VAL[1] : 0;
+    __CPROVER_assume(0 <= g_hk[i] && g_hk[i] < myth_tls_n_keys);
+    if (nondet_bool()) myth_tls_tree_set(&T, g_hk[i], g_hv[i]); else g_hk[i] = -1;       /* the history may be shorter */
+  }
 }
-static _Bool key_present(int k) {
-  int l = k >> 4;
-  return T.root != 0 && P0[0].children[l >> 4] != 0 && P1[l >> 4].children[(l >> 2) & 3] != 0 && P2[l >> 2].children[l & 3] != 0;
-}
-static void * spec_get(int k) {          /* abstract view of a canonical tree */
+/* what the thread must read under key k after the history: the last value it stored there, NULL if it never stored */
+static void * spec_after_history(int k) {
+  void * v = 0; int i;
   if (k < 0 || k >= myth_tls_n_keys) return 0;
-  return key_present(k) ? P3[k >> 4].entries[k & 15].value : 0;
+  for (i = 0; i < HIST; i++) if (g_hk[i] == k) v = g_hv[i];
+  return v;
 }
 
-/* get == abstract view, for every canonical tree and every index (in or out of range) */
 void h_get(void) {
   build_tree();
   int idx = nondet_int();
-  if (0 <= idx && idx < myth_tls_n_keys) P3[idx >> 4].entries[idx & 15].value = nondet_bool() ? (void *)&VAL[0] : 0;
-  void * expect = spec_get(idx);
   myth_tls_tree_node_t * root0 = T.root; char * p0 = T.pre_alloc_p;
   void * v = myth_tls_tree_get(&T, idx);
-  __CPROVER_assert(v == expect, "C10 get: returns the value stored under the key, NULL when the thread never stored (or index out of range)");
+  __CPROVER_assert(v == spec_after_history(idx), "C10 get: returns the last value the thread stored under the key; NULL when it never stored (also for keys sharing a leaf with stored ones) or the index is out of range");
   __CPROVER_assert(T.root == root0 && T.pre_alloc_p == p0, "C10 get: does not modify the tree");
   VERIF_CANARY();
 }
 
-/* set then get, other keys unaffected, out-of-range rejected without a write */
 void h_set(void) {
   build_tree();
   int idx = nondet_int(), j = nondet_int();
   __CPROVER_assume(0 <= j && j < myth_tls_n_keys && j != idx);
-  P3[j >> 4].entries[j & 15].value = nondet_bool() ? (void *)&VAL[1] : 0;
-  void * vj0 = spec_get(j);
+  void * vj0 = myth_tls_tree_get(&T, j);
   void * v = nondet_bool() ? (void *)&VAL[0] : 0;
   myth_tls_tree_node_t * root0 = T.root; char * p0 = T.pre_alloc_p;
   g_malloc_calls = 0; g_malloc_sz_bad = 0;
@@ -86,14 +84,14 @@ void h_set(void) {
     __CPROVER_assert(g_malloc_sz_bad == 0, "C10 set: general allocation only with a node size");
     __CPROVER_assert(T.pre_alloc_p >= T.pre_alloc_buf && T.pre_alloc_p <= T.pre_alloc_buf + myth_tls_tree_pre_alloc_sz, "C10 set: bump pointer stays inside the embedded pool");
   }
-  __CPROVER_assert(myth_tls_tree_get(&T, j) == vj0, "C10 set: a store under one key does not affect the value read under any other key (fresh leaves read NULL)");
+  __CPROVER_assert(myth_tls_tree_get(&T, j) == vj0, "C10 set: a store under one key does not affect the value read under any other key");
   VERIF_CANARY();
 }
 
-/* a new thread: tree_init on a descriptor with arbitrary bytes, then any get returns NULL; the first set works */
 void h_init(void) {
-  build_tree();
-  T.root = nondet_bool() ? &P0[0] : (myth_tls_tree_node_t *)&P3[7];     /* stale root of the previous owner */
+  int i;
+  for (i = 0; i < myth_tls_tree_pre_alloc_sz; i++) T.pre_alloc_buf[i] = nondet_char();
+  T.root = (myth_tls_tree_node_t *)&VAL[3]; T.pre_alloc_p = T.pre_alloc_buf + 9;
   myth_tls_tree_init(&T);
   int idx = nondet_int();
   __CPROVER_assert(T.root == 0 && T.pre_alloc_p == T.pre_alloc_buf, "C10 init: tree reset, bump pool rewound");
@@ -135,19 +133,24 @@ static _Bool I4(int i, int j) { return i == j || !FREEC(i) || !FREEC(j) || KA.ke
 static _Bool HEAD_OK(void) { return KA.free == 0 || (KA.free >= KA.keys && KA.free < KA.keys + myth_tls_n_keys && KA.free->next != LIVE); }
 
 int g_w1, g_w2;
+/* Allocator states: the cells the proof talks about (head, its successor, two witnesses, the key argument, one more)
+   get arbitrary indices and arbitrary links among NULL / LIVE / one another / an opaque seventh cell; every pointer is
+   assigned constructively.  All other cells are never read by the functions under proof. */
+int g_c[6];
 static void ka_state(void) {
-  int i;
-  int h = nondet_int();
-  __CPROVER_assume(-1 <= h && h < myth_tls_n_keys);
-  KA.free = h < 0 ? 0 : &KA.keys[h];
-  for (i = 0; i < myth_tls_n_keys; i++) {
-    int n = nondet_int();
-    __CPROVER_assume(-2 <= n && n < myth_tls_n_keys);
-    KA.keys[i].next = n == -2 ? LIVE : n == -1 ? 0 : &KA.keys[n];
-    KA.keys[i].destructor = nondet_bool() ? D1 : 0;
+  int t;
+  int other = nondet_int();
+  __CPROVER_assume(0 <= other && other < myth_tls_n_keys);
+  KA.keys[other].next = nondet_bool() ? LIVE : 0; KA.keys[other].destructor = nondet_bool() ? D1 : 0;
+  for (t = 0; t < 6; t++) { g_c[t] = nondet_int(); __CPROVER_assume(0 <= g_c[t] && g_c[t] < myth_tls_n_keys && g_c[t] != other); }
+  for (t = 0; t < 6; t++) {
+    int ch = nondet_int();
+    __CPROVER_assume(-2 <= ch && ch <= 6);
+    KA.keys[g_c[t]].next = ch == -2 ? LIVE : ch == -1 ? 0 : ch == 6 ? &KA.keys[other] : &KA.keys[g_c[ch]];
+    KA.keys[g_c[t]].destructor = nondet_bool() ? D1 : 0;
   }
-  g_w1 = nondet_int(); g_w2 = nondet_int();
-  __CPROVER_assume(0 <= g_w1 && g_w1 < myth_tls_n_keys && 0 <= g_w2 && g_w2 < myth_tls_n_keys);
+  KA.free = nondet_bool() ? &KA.keys[g_c[0]] : 0;
+  g_w1 = g_c[2]; g_w2 = g_c[3];
 }
 /* the invariant instances assumed in the pre-state: for the witnesses, the head, the head's successor and `extra` */
 static void assume_wf(int extra) {
@@ -192,7 +195,7 @@ void h_ka_alloc(void) {
 
 void h_ka_dealloc(void) {
   ka_state();
-  int key = nondet_int();
+  int key = nondet_bool() ? g_c[4] : nondet_int();
   assume_wf(0 <= key && key < myth_tls_n_keys ? key : -1);
   myth_tls_key_entry_t * head0 = KA.free;
   myth_tls_key_entry_t * w_next0 = KA.keys[g_w1].next; myth_tls_destructor_fun_t w_d0 = KA.keys[g_w1].destructor;
